@@ -117,4 +117,18 @@ TEXT = {
         design_ref="DESIGN.md section 3, C11",
         level_note=NOTE_COMMON,
         technique="runtime oracle (extended-precision reference + metamorphic triangle poisoning) over enumerated template configurations, ASan+UBSan build"),
+    "C12": dict(
+        level_text="Exhaustive sweep of the stated finite box: ~41000 constructor calls over 17 solver configurations + Davidson + PartialSVD + LOBPCG for n = 1..12 and (nev, ncv) in [-2, n+3]^2, all nine "
+                   "rules as selection and sorting on every class, zero start vectors, sigma = 0, every wrapper constructor with every shape up to 4x4; exact exception type, allocated-bytes monitor around "
+                   "each rejected call, LeakSanitizer, and bitwise fresh-vs-reused comparison after each rejected call.",
+        design_ref="DESIGN.md section 3, C12",
+        level_note=NOTE_COMMON + " The documented predicates are taken from the class documentation; general product wrappers legitimately accept rectangular input.",
+        technique="exhaustive runtime enumeration of the argument box with exception-type oracle, allocation monitor and LeakSanitizer"),
+    "C15": dict(
+        level_text="Exploration: ~4400 (quick) Davidson runs over dense and sparse operators, seven matrix classes, all sizes of the search space, four rules, four kinds of initial space; finiteness judged "
+                   "on every outcome, true residual / unit norm / orthonormality / ordering judged in long double on every Successful run; axis-aligned matrices (exactly zero corrections) form a fixed corpus "
+                   "whose failing members are listed.",
+        design_ref="DESIGN.md sections 3 (C15) and 4",
+        level_note=NOTE_COMMON + " UBSan's null / pointer-overflow checks are off in this one driver: Eigen forms &dst(0,0) of empty matrices internally (0-column products).",
+        technique="runtime oracle (extended-precision residual, finiteness, orthonormality, ordering) over generated inputs + fixed regression corpus, ASan+UBSan build"),
 }
